@@ -50,6 +50,14 @@ theorem wiring_ok : ∀ r ∈ table, rowOk tables r = true := by
 theorem iter_forwarding_ok : forwardingOk tables = true := by
   decide +kernel
 
+/-- Every method DEFINED in an `impl Iterator / DoubleEndedIterator / FusedIterator / ExactSizeIterator
+    for IterWrapper` block (not only `next`/`next_back`: any override such as `nth`, `nth_back`, `last`,
+    `size_hint`, `count`) forwards to the SAME-named method of the inner std iterator with its arguments
+    unchanged, and adopts each yielded `&str` from `self.source`. Stated per row so that a falsified
+    instance names the method and its `file:line`. -/
+theorem iter_methods_forward_same_name : ∀ f ∈ tables.forwards, fwdOk f = true := by
+  decide +kernel
+
 /-- The table has exactly one wrapper row for every method named in the property (`split`, `rsplit`,
     `splitn`, `rsplitn`, `split_terminator`, `split_inclusive`, `split_once`, `matches`,
     `match_indices`, `trim*`, `strip_*`, `lines`, `split_whitespace`, the case conversions, `repeat`,
@@ -112,10 +120,23 @@ example :
       .sliceRef (.other "other"), [0], .self, "mutant"⟩) = false := by
   decide +kernel
 
-/-- `next_back` forwarded to `next`: rejected. -/
+/-- `next_back` forwarded to `next`, `nth_back` forwarded to `nth` (seeded change C11-m5), `nth` with a
+    modified argument, `last` without adoption, an override the table does not know (`fold`): rejected;
+    a correct `nth` / `nth_back` / `size_hint` override: accepted. -/
 example :
-    fwdOk ⟨"DoubleEndedIterator", "next_back", "next", .selfInner, .adoptFrom .selfSourceField,
-      ["Iterator", "DoubleEndedIterator"], true, "mutant"⟩ = false := by
+    fwdOk ⟨"DoubleEndedIterator", "next_back", "next", .selfInner, .absent, .adoptFrom .selfSourceField,
+      ["Iterator", "DoubleEndedIterator"], true, "mutant"⟩ = false ∧
+    fwdOk ⟨"DoubleEndedIterator", "nth_back", "nth", .selfInner, .unchanged, .adoptFrom .selfSourceField,
+      ["Iterator", "DoubleEndedIterator"], true, "mutant"⟩ = false ∧
+    fwdOk ⟨"Iterator", "nth", "nth", .selfInner, .other "n + 1", .adoptFrom .selfSourceField,
+      ["Iterator"], true, "mutant"⟩ = false ∧
+    fwdOk ⟨"Iterator", "last", "last", .selfInner, .absent, .none, ["Iterator"], true, "mutant"⟩ = false ∧
+    fwdOk ⟨"Iterator", "fold", "fold", .selfInner, .unchanged, .none, ["Iterator"], true, "mutant"⟩ = false ∧
+    fwdOk ⟨"Iterator", "nth", "nth", .selfInner, .unchanged, .adoptFrom .selfSourceField,
+      ["Iterator"], true, "ok"⟩ = true ∧
+    fwdOk ⟨"DoubleEndedIterator", "nth_back", "nth_back", .selfInner, .unchanged, .adoptFrom .selfSourceField,
+      ["Iterator", "DoubleEndedIterator"], true, "ok"⟩ = true ∧
+    fwdOk ⟨"Iterator", "size_hint", "size_hint", .selfInner, .absent, .none, ["Iterator"], true, "ok"⟩ = true := by
   decide +kernel
 
 /-- Coverage fails when a wrapper disappears. -/
